@@ -39,6 +39,19 @@ Definition signed (p v : Z) : Z := if v >? Z.shiftr p 1 then v - p else v.
 Definition unsigned (p v : Z) : Z := v.
 Definition to_int (is_signed : bool) (p v : Z) : Z := if is_signed then signed p v else unsigned p v.
 
+
+(** ** pickle: PrimeFieldElement.__reduce__ / createGF and the class cache of pGF
+    GF((p, n, w)) calls the functools.cache'd pGF under a key; pGF stores root = w % p; __reduce__ returns
+    (createGF, (modulus, nth, root), state {'value': v}); createGF(p, n, w) calls pGF(p, n, w) (key = its raw
+    arguments).  [normalise] = GF() reduces w modulo p before the cached call (as coded since /repo 35f6b0f). *)
+Definition gf_key (normalise : bool) (p n w : Z) : Z * Z * Z := (p, n, if normalise then w mod p else w).
+Definition class_root (key : Z * Z * Z) : Z := let '(p, n, w) := key in w mod p.      (* GFp.root = w % p *)
+Definition reduce_args (key : Z * Z * Z) : Z * Z * Z := let '(p, n, w) := key in (p, n, class_root key).
+Definition create_key (args : Z * Z * Z) : Z * Z * Z := args.                        (* createGF calls pGF on these arguments *)
+(** unpickling an element (class key, value): the class is looked up under create_key, the state restores value *)
+Definition pickle_roundtrip (normalise : bool) (p n w v : Z) : (Z * Z * Z) * Z :=
+  (create_key (reduce_args (gf_key normalise p n w)), v).
+
 (** ** Proofs *)
 Lemma int_to_bytes_length r : forall v, length (int_to_bytes r v) = r.
 Proof. induction r as [|r IH]; intros v; simpl; [reflexivity|]. rewrite IH. reflexivity. Qed.
@@ -161,4 +174,25 @@ Proof.
   intros Hp Hv. destruct b; cbn [to_int].
   - apply signed_unsigned; assumption.
   - unfold unsigned. apply Z.mod_small. exact Hv.
+Qed.
+
+(** pickle: recreating from (p, n, root) hits the same cache key as the creating call GF((p, n, w)), for every w *)
+Theorem pickle_same_field p n w v : p <> 0 ->
+  pickle_roundtrip true p n w v = (gf_key true p n w, v) /\
+  gf_key true p n w = gf_key true p n (w mod p).
+Proof.
+  intros Hp. unfold pickle_roundtrip, create_key, reduce_args, class_root, gf_key.
+  rewrite !Z.mod_mod by exact Hp. split; reflexivity.
+Qed.
+
+(** without the normalisation the keys differ (a second class object) whenever w is not reduced, e.g. w = -1 *)
+Theorem pickle_unnormalised_refuted :
+  exists p n w v, p <> 0 /\ fst (pickle_roundtrip false p n w v) <> gf_key false p n w.
+Proof. exists 7, 2, (-1), 3. split; [lia|]. vm_compute. intros E. inversion E. Qed.
+
+Theorem pickle_unnormalised_iff p n w v : p <> 0 ->
+  (fst (pickle_roundtrip false p n w v) = gf_key false p n w <-> w mod p = w).
+Proof.
+  intros Hp. unfold pickle_roundtrip, create_key, reduce_args, class_root, gf_key. cbn [fst].
+  split; [intros E; inversion E; congruence|intros E; rewrite E; reflexivity].
 Qed.
